@@ -61,3 +61,55 @@ package ir
 //@   noframe
 //@   requires [C02.policy] !init$guard
 //@   ensures [C02.policy] !DefaultLiteralPolicy.KeepStringLiterals && DefaultLiteralPolicy.SmallIntMin == 0 - 16 && DefaultLiteralPolicy.SmallIntMax == 16 && DefaultLiteralPolicy.AbstractOtherTypes && DefaultLiteralPolicy.AbstractControlFlowComparisons
+
+// ---- C01: a canonicaliser taken from the pool carries nothing over from its previous use
+// fieldsReset reads the field list of Canonicalizer from go/types on every run: a field added later and not reset
+// fails these clauses.  Policy and StrictMode are configuration; output and scratch are string builders.
+//@ func (*Canonicalizer).resetConfig
+//@   requires c != nil
+//@   modifies c
+//@   modifies c.virtualBlocks
+//@   modifies c.virtualBinOps
+//@   ensures [C01.reset] c.virtualBlocks != nil && len(c.virtualBlocks) == 0 && (forall k in keys(c.virtualBlocks) :: false)
+//@   ensures [C01.reset] c.virtualBinOps != nil && (forall k in keys(c.virtualBinOps) :: false)
+//@   ensures [C01.reset] *c == with(with(old(*c), "virtualBlocks", c.virtualBlocks), "virtualBinOps", c.virtualBinOps)
+
+//@ func (*Canonicalizer).resetScratch
+//@   requires c != nil
+//@   modifies c
+//@   modifies c.registerMap
+//@   modifies c.blockMap
+//@   modifies c.virtualInstrs
+//@   modifies c.hoistedInstrs
+//@   modifies c.sunkInstrs
+//@   modifies c.virtualPhiConstants
+//@   modifies c.virtualSubstitutions
+//@   modifies c.VirtualizedInstrs
+//@   ensures [C01.reset] fieldsReset(c, "Policy,StrictMode,output,scratch,virtualBlocks,virtualBinOps")
+//@   ensures [C01.reset] c.virtualBlocks == old(c.virtualBlocks) && c.virtualBinOps == old(c.virtualBinOps) && c.Policy == old(c.Policy) && c.StrictMode == old(c.StrictMode)
+
+//@ func (*Canonicalizer).fullReset
+//@   requires c != nil
+//@   modifies c
+//@   modifies c.registerMap
+//@   modifies c.blockMap
+//@   modifies c.virtualInstrs
+//@   modifies c.hoistedInstrs
+//@   modifies c.sunkInstrs
+//@   modifies c.virtualPhiConstants
+//@   modifies c.virtualSubstitutions
+//@   modifies c.VirtualizedInstrs
+//@   modifies c.virtualBlocks
+//@   modifies c.virtualBinOps
+//@   ensures [C01.reset] fieldsReset(c, "Policy,StrictMode,output,scratch")
+//@   ensures [C01.reset] c.Policy == old(c.Policy) && c.StrictMode == old(c.StrictMode)
+
+// Every canonicaliser handed out, and every one returned to the pool, is in the reset state.
+//@ func AcquireCanonicalizer
+//@   noframe
+//@   ensures [C01.pool] result != nil && fieldsReset(result, "Policy,StrictMode,output,scratch") && result.Policy == policy
+
+//@ func ReleaseCanonicalizer
+//@   noframe
+//@   call (*sync.Pool).Put assert [C01.pool] c != nil && fieldsReset(c, "Policy,StrictMode,output,scratch")
+//@   ensures [C01.pool] true
